@@ -114,7 +114,42 @@ sys.exit(0)
 '''
 
 
+PROVENANCE = '''
+import sys, os, subprocess
+prog = """
+import hashlib, numpy as np, onnx_ir as ir
+from onnxscript import optimizer
+names = ['alpha', 'beta', 'gamma', 'delta', 'eps', 'zeta']
+consts = [ir.Value(name=n, const_value=ir.tensor(np.array([float(i)], dtype=np.float32), name=n), shape=ir.Shape([1]), type=ir.TensorType(ir.DataType.FLOAT)) for i, n in enumerate(names)]
+nodes, acc = [], consts[0]
+for i, c in enumerate(consts[1:]):
+    nd = ir.Node('', 'Add', [acc, c], name=f'add{i}'); nd.outputs[0].name = f's{i}'; nodes.append(nd); acc = nd.outputs[0]
+x = ir.Value(name='x', shape=ir.Shape([1]), type=ir.TensorType(ir.DataType.FLOAT))
+fin = ir.Node('', 'Mul', [x, acc], name='mul'); fin.outputs[0].name = 'y'; nodes.append(fin)
+g = ir.Graph([x], [fin.outputs[0]], nodes=nodes, initializers=consts, opset_imports={'': 18}, name='g')
+m = ir.Model(g, ir_version=10)
+optimizer.fold_constants(m)
+print(hashlib.sha256(ir.serde.serialize_model(m).SerializeToString()).hexdigest(),
+      [dict(v.metadata_props) for v in m.graph.initializers.values() if v.metadata_props][:1])
+"""
+seen = {}
+for seed in range(10):
+    out = subprocess.run([sys.executable, "-c", prog], env=dict(os.environ, PYTHONHASHSEED=str(seed)), capture_output=True, text=True)
+    if out.returncode != 0:
+        print(out.stderr[-2000:]); sys.exit(3)
+    seen.setdefault(out.stdout.strip(), []).append(seed)
+if len(seen) != 1:
+    print("fold_constants of one model, serialized, differs between PYTHONHASHSEED values:")
+    for k, v in seen.items():
+        print("  seeds", v, "->", k[:300])
+    sys.exit(1)
+sys.exit(0)
+'''
+
+
 def replay(ob):
+    if "C14.folding.provenance" in ob["name"]:
+        return PROVENANCE
     if "C14.graph_pattern.output_nodes" in ob["name"]:
         return GRAPH_PATTERN
     if "C14.eager.executed_function_reads_globals" in ob["name"]:
